@@ -329,6 +329,39 @@ pub fn run(n: usize, spec_path: &str, out_path: &str, watchdog_s: u64) {
                 *gate.open.lock().unwrap() = true;
                 gate.cv.notify_all();
             }
+            "panicky" => {
+                // every task panics, each with another kind of payload (the pool must survive all of them and keep its size)
+                struct EndGuard(Arc<Shared>, i64);
+                impl Drop for EndGuard {
+                    fn drop(&mut self) {
+                        task_end(&self.0, self.1);
+                    }
+                }
+                for j in 0..t {
+                    let (sh2, id) = (sh.clone(), next_id);
+                    next_id += 1;
+                    record("SubmitTask", id);
+                    pool.execute(move || {
+                        task_start(&sh2, id);
+                        let _g = EndGuard(sh2, id);
+                        match j % 12 {
+                            0 => panic!("short"),
+                            1 => panic!("{}", "long ascii payload ".repeat(40)),
+                            2 => panic!("{}", "\u{e9}".repeat(400)),
+                            3 => panic!("x{}", "\u{e9}".repeat(400)),
+                            4 => panic!("{}", "\u{20ac}".repeat(300)),
+                            5 => panic!("x{}", "\u{20ac}".repeat(300)),
+                            6 => panic!("xx{}", "\u{1F600}".repeat(200)),
+                            7 => panic!("line one\r\nline two\n\0 nul {} {{}} %s", id),
+                            8 => std::panic::panic_any(42i32),
+                            9 => std::panic::panic_any(Box::<dyn std::error::Error + Send + Sync>::from("boxed error")),
+                            10 => std::panic::resume_unwind(Box::new(())),
+                            _ => panic!("{}", String::new()),
+                        }
+                    });
+                    submitted += 1;
+                }
+            }
             "faulty" | "conc" => {
                 for _ in 0..t {
                     let cl = match lines.next() {
